@@ -380,6 +380,32 @@ pub fn run(ctx: &mut Ctx) {
     });
 
 
+    // --------------------------------------------- what other protocols put on a TLS port (SSL 2.0 CLIENT-HELLO with
+    // mutually consistent lengths, HTTP, SSH, SMTP, DTLS records, nested records): the framing contract is a
+    // function of the five header bytes and the available length, whatever the rest looks like
+    let n_foreign = ctx.tier.pick(24000, 240000);
+    ctx.floor("foreign-openers", 20_000);
+    ctx.family("foreign-openers", n_foreign, |ctx, case: &mut Case| {
+        let r = &mut case.rng;
+        let pad = *r.pick(&[0usize, 0, 3, 800, 800, 17000]);
+        let buf = gen::foreign_opener(r, pad);
+        if buf.len() < 5 {
+            return;
+        }
+        let (t, v, l) = (buf[0], u16::from_be_bytes([buf[1], buf[2]]), u16::from_be_bytes([buf[3], buf[4]]) as usize);
+        for p in [P::Raw, P::Enc, P::Plain] {
+            let input = &buf[..];
+            if let Some(o) = ctx.guarded("record parser", &input[..input.len().min(64)], || call(p, input)) {
+                ctx.eval();
+                ctx.count("foreign-openers");
+                ctx.shape(&("foreign", p, t >> 4, lc(l), ncls(input.len(), l), o.out.class()));
+                if let Some(rule) = judge(p, t, v, l, input, &o) {
+                    report(ctx, p, t, v, l, &input[..input.len().min(5 + l + 16)], &o, rule);
+                }
+            }
+        }
+    });
+
     // --------------------------------------------- a complete record followed by ANOTHER record: every (type, following type)
     // pair, with the minimal valid payload of the first type — what follows must never influence the framing
     ctx.sweep("record-pairs", 256, |ctx, idx| {
